@@ -16,6 +16,8 @@ Init == /\ out = <<>> /\ pc = "in"
              [] Kind = "detect" -> inp \in [ref : Segs(0, P, N), est : UNION {Segs(a, b, N) : a \in {0, 1}, b \in {P - 1, P}}, w : W, trim : BOOLEAN, b2 : Betas]
              [] Kind = "notes" -> inp \in [ref : SeqsUpTo(Note, N), est : SeqsUpTo(Note, N), ot : {<<1, 1>>, <<2, 1>>},
                                            ratio : {NONE, <<1, 2>>}, strict : BOOLEAN, b2 : {<<1, 1>>, <<4, 1>>}]
+             [] Kind = "aor" -> inp \in [ref : (SeqsUpTo(Note, N) \ {<<>>}), est : (SeqsUpTo(Note, N) \ {<<>>}), m : SUBSET ((1..N) \X (1..N))]
+                                /\ IsMatching(inp.m, (1..Len(inp.ref)) \X (1..Len(inp.est)))
              [] Kind = "tempo" -> inp \in [r1 : {0, 60, 100}, r2 : {0, 120, 180}, e1 : {0, 57, 63, 100, 108, 120}, e2 : {0, 110, 120, 130, 194},
                                            wgt : {<<0, 1>>, <<1, 4>>, <<1, 1>>}, tol : {<<0, 1>>, <<1, 20>>, <<2, 25>>, <<1, 1>>}]
                                   /\ (inp.r1 > 0 \/ inp.r2 > 0)
@@ -36,6 +38,9 @@ Solve == /\ pc = "in" /\ pc' = "out" /\ UNCHANGED inp
                           [full |-> Q(NotePRF(inp.ref, inp.est, inp.ot, <<50, 1>>, inp.ratio, <<1, 1>>, inp.strict, inp.b2)),
                            onset |-> Q(OnsetPRF(inp.ref, inp.est, inp.ot, inp.strict, inp.b2)),
                            offset |-> IF inp.ratio = NONE THEN Q(PRF(0, 0, 0, <<1, 1>>)) ELSE Q(OffsetPRF(inp.ref, inp.est, inp.ratio, <<1, 1>>, inp.strict, inp.b2))]
+                     [] Kind = "aor" -> [aor |-> AOR(inp.ref, inp.est, inp.m),
+                                          \* the pairing match_notes must return when it is the only maximum one
+                                          le1 |-> RLeq(AOR(inp.ref, inp.est, inp.m), <<1, 1>>)]
                      [] Kind = "tempo" ->
                           LET t == TempoScores(<<inp.r1, inp.r2>>, inp.wgt, <<inp.e1, inp.e2>>, inp.tol) IN
                           [p |-> t.p, one |-> t.one, both |-> t.both,
@@ -59,6 +64,7 @@ Sane == pc = "out" =>
     [] Kind = "detect" -> InUnit(out.prf.p) /\ InUnit(out.prf.r) /\ InUnit(out.prf.f)
     [] Kind = "notes" -> /\ InUnit(out.full.p) /\ InUnit(out.full.f)
                          /\ RLeq(out.full.p, out.onset.p) /\ RLeq(out.full.r, out.onset.r)
+    [] Kind = "aor" -> out.le1                         \* C01: the ratio is bounded above by 1 (it may be negative)
     [] Kind = "tempo" -> InUnit(out.p) /\ (out.both => out.one)
     [] Kind = "align" -> InUnit(out.pc) /\ InUnit(out.pcs) /\ RLeq(<<0, 1>>, out.mean)
     [] Kind = "melody" -> /\ InUnit(out.recall) /\ InUnit(out.fa) /\ InUnit(out.rpa) /\ InUnit(out.rca) /\ InUnit(out.oa)
